@@ -11,7 +11,7 @@ Failed(r) ==
             ELSE Clause("serialized_cell_is_not_a_valid_encoding", r.out.tree \in {e.tree : e \in encs})
       [] r.op = "wrap_ser" ->
             IF Has(r.out, "err") THEN {"serialize_raised_" \o r.type}
-            ELSE Clause("wrapper_encoding_wrong_" \o r.type, r.out.tree = T!Encode(r.type, r.val))
+            ELSE Clause("wrapper_encoding_wrong_" \o r.type, r.out.tree \in WrapEncodings(r.type, r.val))
       [] r.op = "parse" ->
             ParseFailed(r)
 TInit == KitInit
